@@ -24,7 +24,7 @@ RULE = (
     "batches (0-5 records, int64 base offset with int32 deltas, record timestamps anywhere in [epoch, 9999-12-31], "
     "null/empty/non-empty keys, values and headers, all header fields over their full ranges; in 1 record of 13 a key or "
     "value of 63..8192 bytes or 63-65 headers, so that length and count varints need 2-3 bytes), plus the four "
-    "real-broker batches of tests/records/fixtures.py; each batch is read (a) intact: header fields and "
+    "real-broker batches of tests/records/fixtures.py; each batch is read - in every second case after another well-formed batch on the same stream - (a) intact: header fields and "
     "records must equal the encoded ones and write_batch(read_batch(b)) == b; (b) with EVERY single-bit flip from byte "
     "17 (CRC field) to the end, (c) truncated at EVERY length 0..len-1 (batches above 600 bytes: every position in the first 96 "
     "and last 32 bytes and every 7th in between), (d) with EVERY wrong magic value: each must "
@@ -100,11 +100,35 @@ class CountingIO(io.BytesIO):
         return super().read(*a)
 
 
+# a well-formed batch that precedes the batch under test on the same stream in every second read (record sets are
+# concatenations of batches, so a batch rarely starts at stream position 0)
+def _lead() -> bytes:
+    """An empty (zero-record) but well-formed batch with a correct CRC, built once by the reference encoder."""
+    global _LEAD_OK
+    if _LEAD_OK is None:
+        wb = WireBatch(base_offset=0, partition_leader_epoch=0, attributes=0, last_offset_delta=0, base_timestamp=0, max_timestamp=0,
+                       producer_id=-1, producer_epoch=-1, base_sequence=-1, records=())
+        _LEAD_OK = encode_batch(wb)
+    return _LEAD_OK
+
+
+_LEAD_OK = None
+
+
 def _read(data: bytes):
+    """Read `data` as a batch; every second input (by content) is preceded on the stream by another batch, which is read
+    first.  -> (batch, bytes consumed by the batch under test)"""
     from kio.records.readers import read_batch
 
-    src = CountingIO(data, 4 * len(data) + 64)
-    return read_batch(src), src.tell()
+    if (len(data) + sum(data[:32])) % 2 == 0:
+        src = CountingIO(data, 4 * len(data) + 64)
+        return read_batch(src), src.tell()
+    lead = _lead()
+    src = CountingIO(lead + data, 4 * (len(lead) + len(data)) + 128)
+    read_batch(src)
+    if src.tell() != len(lead):
+        raise AssertionError("harness: the leading batch was not consumed exactly")
+    return read_batch(src), src.tell() - len(lead)
 
 
 def check_identity(wb: WireBatch, data: bytes) -> tuple[list, bool]:
